@@ -188,7 +188,7 @@ PROPERTIES = {
         'level': 'other',
         'claim': 'every array subscript, pointer range (copy_n/fill_n/inner_product/FFT buffers), float-to-integer conversion, signed overflow, unsigned index product and division in the units under contract '
                  'is proved defined under the class invariants, and main establishes the padded-buffer precondition for every bucket; unbounded in all sizes',
-        'assumptions': ['documented option domain assumed where main hands options to the map constructors unvalidated (slice main/maps): InterpolationPoints in 1..4, derivation 4 only with GridSize >= 4, FPType in 0..3, RF frequency and revolution part positive, three momentum-compaction terms', A_IDEAL, A_LIB, DROPS, 'libraries are memory safe when their stated preconditions hold', 'documented option domain (see MainConfig.requires and domain_after)'],
+        'assumptions': ['documented option domain assumed where main hands options to the map constructors unvalidated (slice main/maps): InterpolationPoints in 1..4, derivation 4 only with GridSize >= 4, FPType in 0..3, RF frequency and revolution part positive, three momentum-compaction terms; slice main/fields: padded and spaced buffer lengths in [GridSize, 2^32) (lower bound proved by the configuration slice), fmax, f_rev, R_bend positive, E0 and sE non-zero', A_IDEAL, A_LIB, DROPS, 'libraries are memory safe when their stated preconditions hold', 'documented option domain (see MainConfig.requires and domain_after)'],
         'uncovered': ['functions not under contract: the Gaussian start distribution inside the PhaseSpace constructor (frame-only), the file-opening and line-counting prologue of makePSFromTXT (its particle loop is under contract with std::istream modelled by fail/eof flags), HDF5File, ProgramOptions, RotationMap, Display',
                       'uninitialised reads (tables are written before use by construction order, checked only where a unit reads what it wrote)',
                       ],
